@@ -33,11 +33,18 @@ _DIAG = re.compile(r'ERROR|WARNING|[Ee]rror|[Uu]sage|[Ss]yntax|Bailing|[Cc]annot
 
 _state = {}
 
+# Address-space randomisation is switched off for the subjects: how a large overflow ends (sanitizer report, the report itself
+# dying -> SIGABRT, or SIGSEGV) depends on the memory layout, and a key must not change from run to run.
+_NOASLR = ['setarch', os.uname().machine, '-R'] if shutil.which('setarch') else []
+
 
 def tools_dir():
     if 'b' not in _state:
         _state['b'] = build.core('san')
-        _state['env'] = build.env(_state['b'])
+        e = build.env(_state['b'])
+        # fixed minimal environment: the subjects' stack layout (and with it how a large overflow ends) must not depend on
+        # whatever the caller happens to have exported
+        _state['env'] = dict((k, v) for k, v in e.items() if k in ('LD_LIBRARY_PATH', 'ASAN_OPTIONS', 'UBSAN_OPTIONS', 'PATH', 'LANG', 'LC_ALL'))
     return _state['b']
 
 
@@ -138,7 +145,7 @@ def execute(data, tool, args=(), name='in.exp', path=None, timeout=60):
             n = len(data or b'')
         else:
             n = os.path.getsize(path)
-        r = run.run([os.path.join(b, 'bin', tool)] + list(args) + [path], cwd=wd, env=_state['env'], timeout=timeout,
+        r = run.run(_NOASLR + [os.path.join(b, 'bin', tool)] + list(args) + [path], cwd=wd, env=_state['env'], timeout=timeout,
                     budget=budget_for(n), steplog=True, cpu=CPU_A + n // CPU_BYTES_PER_S)
         nfiles = sum(len(fs) for _, _, fs in os.walk(wd))
         return r, nfiles
